@@ -309,9 +309,11 @@ void copyFamily(Ctx& ctx, const std::string& dir)
 	for (std::size_t l : { C - 1, C, C + 1, 2 * C, 2 * C + 1 }) lens.insert(l);
 	static const char* bnames[] = { "memory", "memory-slice", "file", "file-slice", "slice-of-slice" };
 	static const char* dnames[] = { "dynamic", "fixed", "file" };
-	for (std::size_t len : lens) {
+	// content: hashed bytes; all 0xFF (EOF as a char) and all zero (a writer may be tempted to skip zero blocks) for the longer sources
+	for (int content = 0; content < 3; ++content) for (std::size_t len : lens) {
+		if (content && len < 16) continue;
 		std::vector<uint8_t> src(len);
-		for (std::size_t i = 0; i < len; ++i) src[i] = mc::contentByte(uint32_t(C), i);
+		for (std::size_t i = 0; i < len; ++i) src[i] = content == 0 ? mc::contentByte(uint32_t(C), i) : content == 1 ? uint8_t(0xFF) : uint8_t(0);
 		std::vector<uint8_t> framed = { 0xD0, 0xD1 }; framed.insert(framed.end(), src.begin(), src.end()); framed.push_back(0xD2);
 		std::string plain = dir + "/plain.bin", fr = dir + "/framed.bin";
 		mc::writeFile(plain, src); mc::writeFile(fr, framed);
@@ -320,7 +322,7 @@ void copyFamily(Ctx& ctx, const std::string& dir)
 		if (len > C) starts.insert(C);
 		for (std::size_t start : starts) for (int b = 0; b < 5; ++b) for (int d = 0; d < 3; ++d) {
 			if (len > 4096 && (b == 1 || b == 4) && d == 2) continue;   // large x redundant combinations trimmed
-			std::string key = "chunk=" + std::to_string(C) + " len=" + std::to_string(len) + " start=" + std::to_string(start) + " src=" + bnames[b] + " dst=" + dnames[d];
+			std::string key = "chunk=" + std::to_string(C) + " len=" + std::to_string(len) + (content == 1 ? " (all 0xFF)" : content == 2 ? " (all zero)" : "") + " start=" + std::to_string(start) + " src=" + bnames[b] + " dst=" + dnames[d];
 			ctx.sub(key);
 			std::unique_ptr<Stream::BidirectionalReader> r;
 			std::unique_ptr<uint8_t[]> memCopy;
@@ -432,6 +434,15 @@ void fileWriterMatrix(Ctx& ctx)
 				ctx.count("filewriter/append-existing");
 				std::vector<uint8_t> e = old; e.insert(e.end(), fresh.begin(), fresh.end());
 				if (now != e) site = "append-does-not-preserve-and-append";
+				else {
+					// appending also after seeking back: what the file held before stays, everything written is behind it
+					mc::writeFile(path, old);
+					auto o2 = mc::guarded([&] { Stream::FileWriter w(path, static_cast<OM>(flags)); w.Write(fresh.data(), fresh.size()); w.SeekBeginning(); w.Write("XY", 2); w.Seek(2); w.Write("Z", 1); });
+					auto now2 = mc::readFile(path);
+					ctx.transition(); ctx.count("filewriter/append-after-seeking-back");
+					if (o2.cls == 'R' && (now2.size() != old.size() + 6 || !std::equal(old.begin(), old.end(), now2.begin()))) { site = "append-mode-overwrote-existing-content"; now = now2; }
+					else if (o2.cls != 'R' && now2.size() >= old.size() && !std::equal(old.begin(), old.end(), now2.begin())) { site = "append-mode-overwrote-existing-content"; now = now2; }
+				}
 			}
 			else {
 				ctx.count("filewriter/neither-truncate-nor-append");   // weaker reading: only the existence rules are asserted
